@@ -28,7 +28,7 @@ META = {
              "larger buffer; distinct by (variant, kernel, presentation, operand contents)"),
     "require": {"quick": ["bc:kernel_calls", "asan:kernel_calls", "asan:canary_detected", "bc:checks_on",
                           "asan:many_calls", "bc:many_calls", "asan:insitu_calls", "bc:insitu_calls",
-                          "one_empty_operand_calls", "class:very_unequal_lengths"],
+                          "one_empty_operand_calls", "class:very_unequal_lengths", "class:lopsided_ladder", "class:operand>65536"],
                 "thorough": ["bc:kernel_calls", "asan:kernel_calls", "asan:canary_detected", "bc:checks_on",
                              "asan:many_calls", "bc:many_calls", "asan:insitu_calls", "bc:insitu_calls",
                              "one_empty_operand_calls"]},
@@ -251,6 +251,13 @@ def run_shard(ctx):
     elif kind == "random":
         for n in range(s["n"]):
             a, b = K.random_pair(rng, maxlen=int(K.pickone(rng, [3, 20, 300])))
+            if n % 4 == 1:
+                a, b = K.lopsided_pair(rng, long_len=None if n % 8 == 1 else K.pickone(rng, K.LADDER[:9]))
+                ctx.count("class:lopsided_ladder")
+                if max(len(a), len(b)) > 65536:
+                    ctx.count("class:operand>65536")
+            elif n % 25 == 7:
+                a, b = K.shared_base_views(rng)
             if n % 4 == 3:
                 # very unequal lengths (where a search-based shortcut would apply), either order,
                 # the short operand reaching beyond / staying below the long one
